@@ -11,18 +11,18 @@ Lemma veq_sym s1 s2 : veq s1 s2 -> veq s2 s1. Proof. unfold veq; congruence. Qed
 Lemma veq_trans s1 s2 s3 : veq s1 s2 -> veq s2 s3 -> veq s1 s3. Proof. unfold veq; congruence. Qed.
 
 Lemma veq_inv s1 s2 : veq s1 s2 ->
-  exists a b c d e e' f g h p1 p2, s1 = mkSt a b c d e e' f g h p1 /\ s2 = mkSt a b c d e e' f g h p2.
+  exists a b c d e e' f o g h p1 p2, s1 = mkSt a b c d e e' f o g h p1 /\ s2 = mkSt a b c d e e' f o g h p2.
 Proof.
   destruct s1, s2; unfold veq, visible; cbn; intro H; inversion H; subst.
   repeat eexists.
 Qed.
 
 Ltac crush_step :=
-  unfold fixed, upstream, step, export, summary, cost, get_cost, cost_of, set_spec, flip, train_step, forward, resample, sample, set_th_rng,
+  unfold fixed, upstream, step, export, summary, cost, get_cost, cost_of, set_spec, flip, set_opt, ov, train_step, forward, resample, sample, set_th_rng,
          bn_flag, drop_flag, samp_flag, veq, visible;
-  cbn [pv bv tr_wrap tr_seed tr_leaf tr_sub th rng spec polluted fst snd restore_state fork_rng summary_pure];
+  cbn [pv bv tr_wrap tr_seed tr_leaf tr_sub th opt rng spec polluted fst snd restore_state fork_rng summary_pure keep_options];
   repeat match goal with
-         | |- context [match ?x with _ => _ end] => destruct x eqn:?; cbn [pv bv tr_wrap tr_seed tr_leaf tr_sub th rng spec polluted fst snd]
+         | |- context [match ?x with _ => _ end] => destruct x eqn:?; cbn [pv bv tr_wrap tr_seed tr_leaf tr_sub th opt rng spec polluted fst snd]
          end;
   try (split; reflexivity); try reflexivity; try congruence.
 
@@ -30,8 +30,8 @@ Ltac crush_step :=
 Lemma step_congr v c o s1 s2 : veq s1 s2 ->
   veq (fst (step v c s1 o)) (fst (step v c s2 o)) /\ snd (step v c s1 o) = snd (step v c s2 o).
 Proof.
-  intro H. destruct (veq_inv _ _ H) as (a & b & c0 & d & e & e' & f & g & h & p1 & p2 & -> & ->). clear H.
-  destruct v as [rs fr sp]. destruct o; crush_step.
+  intro H. destruct (veq_inv _ _ H) as (a & b & c0 & d & e & e' & f & oo & g & h & p1 & p2 & -> & ->). clear H.
+  destruct v as [rs fr sp ko]. destruct o; crush_step.
 Qed.
 
 (* one observer call on the repaired tree leaves the visible state alone *)
@@ -45,7 +45,7 @@ Qed.
 Lemma observer_step_polluted c s o : is_observer o = true ->
   polluted (fst (step fixed c s o)) = polluted s \/ polluted (fst (step fixed c s o)) = true /\ pollutes c = true.
 Proof.
-  destruct s as [a b c0 d e e' f g h p]. destruct o; cbn [is_observer]; try discriminate; intros _; crush_step; auto.
+  destruct s as [a b c0 d e e' f oo g h p]. destruct o; cbn [is_observer]; try discriminate; intros _; crush_step; auto.
   all: destruct p, (pollutes c); cbn; auto.
 Qed.
 
@@ -134,31 +134,31 @@ Proof. intro H. cbn [step]. rewrite H. reflexivity. Qed.
 Definition cfg_pit := mkCfg PIT false true true true true true false false.
 Definition cfg_mps_g := mkCfg MPS true false false true false false true true.
 Definition cfg_sn_g := mkCfg SN true true true true true true false false.
-Definition s_train := fst (step fixed cfg_sn_g (init true false SingleA) OForward).
+Definition s_train := fst (step fixed cfg_sn_g (init cfg_sn_g true false SingleA) OForward).
 
 (* export() leaves the seed in eval mode although the wrapper reports training *)
 Lemma upstream_export_mode_refuted : exists c s,
   tr_wrap s = true /\ tr_seed s = true /\
   let s' := fst (step upstream c s OExport) in tr_wrap s' = true /\ tr_seed s' = false /\ tr_leaf s' = false.
-Proof. exists cfg_pit, (init true false SingleA). cbn. auto. Qed.
+Proof. exists cfg_pit, (init cfg_pit true false SingleA). cbn. auto. Qed.
 
 (* restoring "the mode" with self.train(self.training) instead of every module's own flag: a BatchNorm frozen by
    the user (module.eval() while the wrapper trains) is put back in training mode by export(), its statistics
    start moving at the next forward *)
 Lemma mode_only_restore_refuted : exists c s,
-  let v := mkVer RMode true true in
+  let v := mkVer RMode true true true in
   tr_sub s = false /\ tr_sub (fst (step v c s OExport)) = true /\
   bv (run v c s [OExport; OForward]) <> bv (run v c s [OForward]).
-Proof. exists cfg_pit, (init true true SingleA). cbn. repeat split; discriminate. Qed.
+Proof. exists cfg_pit, (init cfg_pit true true SingleA). cbn. repeat split; discriminate. Qed.
 
 (* the cost after export() differs from the cost before it (MPS, training) *)
 Lemma upstream_export_cost_refuted : exists c s,
   snd (step upstream c (fst (step upstream c s OExport)) OCost) <> snd (step upstream c s OCost).
-Proof. exists cfg_mps_g, (fst (step upstream cfg_mps_g (init true false SingleA) OForward)). vm_compute. discriminate. Qed.
+Proof. exists cfg_mps_g, (fst (step upstream cfg_mps_g (init cfg_mps_g true false SingleA) OForward)). vm_compute. discriminate. Qed.
 
 (* export() advances the global random stream *)
 Lemma upstream_export_rng_refuted : exists c s, rng (fst (step upstream c s OExport)) <> rng s.
-Proof. exists cfg_pit, (init false false SingleA). vm_compute. discriminate. Qed.
+Proof. exists cfg_pit, (init cfg_pit false false SingleA). vm_compute. discriminate. Qed.
 
 (* SuperNet summary() under Gumbel sampling in training: cost changes, random stream advances *)
 Lemma upstream_summary_refuted : exists c s,
@@ -166,17 +166,30 @@ Lemma upstream_summary_refuted : exists c s,
   /\ rng (fst (step upstream c s OSummary)) <> rng s.
 Proof. exists cfg_sn_g, s_train. split; vm_compute; discriminate. Qed.
 
+(* export() that ends with update_softmax_options(disable_sampling=False): on a model frozen by the user with
+   disable_sampling=True after some search steps, export() re-enables sampling; the next forward re-samples the
+   coefficients, so the cost (and the output) differ from the run without the export *)
+Definition frozen_prefix := [OForward; OTrainStep; OTrainStep; OSetOpt (Some true) None None None].
+Lemma export_resetting_options_refuted : exists c s,
+  let v := mkVer RAll true true false in
+  o_disabled (opt s) = true /\ o_disabled (opt (fst (step v c s OExport))) = false /\
+  snd (step v c (run v c s [OExport; OForward]) OCost) <> snd (step v c (run v c s [OForward]) OCost).
+Proof.
+  exists cfg_mps_g, (run fixed cfg_mps_g (init cfg_mps_g true false SingleA) frozen_prefix).
+  vm_compute. repeat split; discriminate.
+Qed.
+
 (* each of the three repairs is needed on its own *)
 Lemma each_fix_needed :
-  (exists c s, ~ veq (fst (step (mkVer RNo true true) c s OExport)) s) /\
-  (exists c s, ~ veq (fst (step (mkVer RMode true true) c s OExport)) s) /\
-  (exists c s, ~ veq (fst (step (mkVer RAll false true) c s OExport)) s) /\
-  (exists c s, ~ veq (fst (step (mkVer RAll true false) c s OSummary)) s).
+  (exists c s, ~ veq (fst (step (mkVer RNo true true true) c s OExport)) s) /\
+  (exists c s, ~ veq (fst (step (mkVer RMode true true true) c s OExport)) s) /\
+  (exists c s, ~ veq (fst (step (mkVer RAll false true true) c s OExport)) s) /\
+  (exists c s, ~ veq (fst (step (mkVer RAll true false true) c s OSummary)) s).
 Proof.
   split; [|split; [|split]].
-  - exists cfg_pit, (init true false SingleA). vm_compute. discriminate.
-  - exists cfg_pit, (init true true SingleA). vm_compute. discriminate.
-  - exists cfg_pit, (init true false SingleA). vm_compute. discriminate.
+  - exists cfg_pit, (init cfg_pit true false SingleA). vm_compute. discriminate.
+  - exists cfg_pit, (init cfg_pit true true SingleA). vm_compute. discriminate.
+  - exists cfg_pit, (init cfg_pit true false SingleA). vm_compute. discriminate.
   - exists cfg_sn_g, s_train. vm_compute. discriminate.
 Qed.
 
@@ -184,8 +197,8 @@ Qed.
 Definition ex_ops := [OForward; OCost; OSummary; OExport; OTrainStep; OSetSpec DictAB; OGetCost "b"%string; OGetCost "a"%string; OExport;
                       OFlip; OSetSpec SingleA; OForward; OSummary; OCost].
 Lemma example_history :
-  trace_mut fixed cfg_sn_g (init true false SingleA) ex_ops = trace fixed cfg_sn_g (init true false SingleA) (erase ex_ops)
+  trace_mut fixed cfg_sn_g (init cfg_sn_g true false SingleA) ex_ops = trace fixed cfg_sn_g (init cfg_sn_g true false SingleA) (erase ex_ops)
   /\ List.length (erase ex_ops) = 6%nat
-  /\ rng (run fixed cfg_sn_g (init true false SingleA) ex_ops) = 35
-  /\ trace_mut upstream cfg_sn_g (init true false SingleA) ex_ops <> trace upstream cfg_sn_g (init true false SingleA) (erase ex_ops).
+  /\ rng (run fixed cfg_sn_g (init cfg_sn_g true false SingleA) ex_ops) = 35
+  /\ trace_mut upstream cfg_sn_g (init cfg_sn_g true false SingleA) ex_ops <> trace upstream cfg_sn_g (init cfg_sn_g true false SingleA) (erase ex_ops).
 Proof. repeat split; vm_compute; try reflexivity; discriminate. Qed.
